@@ -8,6 +8,7 @@ import (
 	"reflect"
 	"regexp"
 	"runtime/debug"
+	"strconv"
 	"strings"
 	"time"
 
@@ -809,6 +810,15 @@ func build(n *Node, e *Env) (z.ZogSchema, reflect.Type) {
 				}
 				t := strings.TrimSpace(data)
 				return &t, nil
+			}, es), et
+		case "ptrnum": // pointer result of another type: the parsed integer (a pointer to 0 is a present 0), nil when there is none
+			return z.Preprocess(func(data string, ctx z.Ctx) (*int, error) {
+				e.preCall(n, data, ctx)
+				v, err := strconv.Atoi(strings.TrimSpace(data))
+				if err != nil {
+					return nil, nil
+				}
+				return &v, nil
 			}, es), et
 		// Validate-mode wrappers: the function receives a pointer to the node's value (F = *T) and its output is written back
 		case "vtrim":
